@@ -79,6 +79,12 @@ def _run_impl_chunk(lines, mode="run", pad=0, timeout=120, noquarantine=False, h
                 cur = None
             elif ln.startswith("F ") and cur is not None:
                 res[cur]["live"] = ln[2:]
+            elif ln.startswith("A ") and cur is not None:
+                # written by the harness's signal handler when the library aborts the process: the call
+                # and the destructors started in it so far (the model's choice oracle for that call)
+                t = ln.split()
+                if len(t) >= 2 and t[1].isdigit():
+                    res[cur]["abort_order"] = (int(t[1]), t[2] if len(t) > 2 else "")
             elif cur is not None and ln:
                 res[cur]["lines"].append(ln)
         if rc == 0:
@@ -124,6 +130,9 @@ def add_hints(line, impl_rec):
         m = re.match(r"^(\d+) (?:\S+ )?D([\d,]+)", ln) or re.match(r"^(\d+) fault .* order=([\d,]+)", ln)
         if m:
             hints[int(m.group(1))] = m.group(2)
+    ao = impl_rec.get("abort_order")
+    if ao and ao[1]:
+        hints[ao[0]] = ao[1]
     if not hints:
         return line
     ops = [(o + "@" + hints[i]) if i in hints and "@" not in o else o for i, o in enumerate(ops)]
